@@ -24,7 +24,7 @@ import (
 )
 
 const (
-	validatorRe = `^(validate|validate2|check|check2|check3|check4|Validate|norm)$`
+	validatorRe = `^(validate|validate2|check|check2|check3|check4|Validate|norm|validateBox|validatePtr|validateAny)$`
 	sanitizerRe = `^sanitize$`
 	f5Key       = "F5:validator-condition-not-on-every-path"
 	c02aKey     = "C02a:validated-load-before-store"
@@ -76,7 +76,7 @@ func tail(s string, n int) string {
 
 var (
 	srcCallRe  = regexp.MustCompile(`source\((\d+)\)`)
-	sinkCallRe = regexp.MustCompile(`sink\((\d+),`)
+	sinkCallRe = regexp.MustCompile(`sink(?:Any|Box|Ptr)?\((\d+),`)
 )
 
 // siteLines maps line numbers of main.go to the source / sink site on that line.
@@ -113,6 +113,7 @@ type caseInfo struct {
 	indirectF5 map[int]bool
 	gt, rept  map[[2]int]bool
 	condKinds map[int]bool
+	shape     bool // a shape case (views of the same data)
 }
 
 func collectKinds(b []cstmt, into map[int]bool) {
@@ -155,10 +156,11 @@ func sourceInstrOf(n df.GraphNode, fn *ssa.Function, arg ssa.Value) (ins ssa.Ins
 	return nil, false, false
 }
 
-// siteOfCall returns the constant first argument of a call to fn `name` (source(k) / sink(k, x)), or -1.
+// siteOfCall returns the constant first argument of a call to a function whose name starts with
+// `name` (source(k) / sink(k, x) / sinkAny(k, x) …), or -1.
 func siteOfCall(ins ssa.Instruction, name string) int {
 	c, ok := ins.(ssa.CallInstruction)
-	if !ok || c.Common().StaticCallee() == nil || c.Common().StaticCallee().Name() != name || len(c.Common().Args) == 0 {
+	if !ok || c.Common().StaticCallee() == nil || !strings.HasPrefix(c.Common().StaticCallee().Name(), name) || len(c.Common().Args) == 0 {
 		return -1
 	}
 	k, ok := c.Common().Args[0].(*ssa.Const)
@@ -363,14 +365,30 @@ func runCases(rep *lib.Report) {
 		cases = append(cases, ci)
 		text.WriteString("\n" + src)
 	}
+	// shape cases (same data through different SSA views)
+	nShapes := 60
+	if lib.Thorough() {
+		nShapes = 500
+	}
+	for k := 0; k < nShapes; k++ {
+		i := len(cases)
+		before := site
+		src, _ := renderShapeCase(r, fmt.Sprintf("case%d", i), func() int { site++; return site })
+		ci := &caseInfo{id: i, src: src, sites: map[int]bool{}, gt: map[[2]int]bool{}, rept: map[[2]int]bool{}, condKinds: map[int]bool{}, nontriv: true, shape: true}
+		for k := before + 1; k <= site; k++ {
+			ci.sites[k] = true
+		}
+		cases = append(cases, ci)
+		text.WriteString("\n" + src)
+	}
 	skel, skelSrcs := skeletonFunctions(rep)
 	dir := lib.WorkDir(prop, "prog")
 	nm, sm := renderMains(len(cases), maxBits)
 	lib.WriteProgram(dir, "vcase", map[string]string{
 		"main.go":           text.String(),
 		"skel.go":           skel,
-		"support_native.go": nativeSupport + nm,
-		"support_stub.go":   stubSupport + sm,
+		"support_native.go": nativeSupport + shapeNative + nm,
+		"support_stub.go":   stubSupport + shapeStub + sm,
 	})
 	runProgram(rep, dir, "vcase", text.String(), cases, skelSrcs)
 }
@@ -415,7 +433,7 @@ func runProgram(rep *lib.Report, dir, pkg, text string, cases []*caseInfo, skelS
 		rep.Fail("harness-load-"+name, "generated case program does not load: "+err.Error(), nil, true)
 		return
 	}
-	res := l.Analyze(taintrun.Options{SourceRe: `^source$`, SinkRe: `^sink$`, SanitizerRe: sanitizerRe, ValidatorRe: validatorRe})
+	res := l.Analyze(taintrun.Options{SourceRe: `^source$`, SinkRe: `^sink(Any|Box|Ptr)?$`, SanitizerRe: sanitizerRe, ValidatorRe: validatorRe})
 	if !res.OK() || res.Analysis.State == nil {
 		rep.Fail("harness-analyze-"+name, fmt.Sprintf("taint analysis did not complete: loadErr=%v panic=%s", res.LoadErr, tail(res.Panic, 1500)), nil, true)
 		return
@@ -492,6 +510,9 @@ func runProgram(rep *lib.Report, dir, pkg, text string, cases []*caseInfo, skelS
 		for k := range ci.condKinds {
 			rep.Count(fmt.Sprintf("case:cond-kind-%02d", k))
 		}
+		if ci.shape {
+			rep.Count("case:shape")
+		}
 		if ci.dropped > 0 {
 			rep.Count("case:has-validator-dropped-edge")
 		}
@@ -528,7 +549,7 @@ func runProgram(rep *lib.Report, dir, pkg, text string, cases []*caseInfo, skelS
 		sort.Slice(missed, less(missed))
 		sort.Slice(missedF5, less(missedF5))
 		sort.Slice(missedMem, less(missedMem))
-		content := fmt.Sprintf("%s\nmissed (source site, sink site): %v\nmissed through an edge validated only via two loads of one pointer (C02a): %v\nmissed through an edge whose validator condition is not on every path (F5): %v\nground truth: %v\nreported: %v\nvalidator-dropped edges: %d (not on every path: %d, unexplained by the model: %d); classes %v\nconfig: sources ^source$, sinks ^sink$, sanitizers %s, validators %s\nsupport code: nativeSupport / stubSupport in harness/cmd/c02/gen.go (the whole program is in %s)\n",
+		content := fmt.Sprintf("%s\nmissed (source site, sink site): %v\nmissed through an edge validated only via two loads of one pointer (C02a): %v\nmissed through an edge whose validator condition is not on every path (F5): %v\nground truth: %v\nreported: %v\nvalidator-dropped edges: %d (not on every path: %d, unexplained by the model: %d); classes %v\nconfig: sources ^source$, sinks ^sink(Any|Box|Ptr)?$, sanitizers %s, validators %s\nsupport code: nativeSupport / stubSupport in harness/cmd/c02/gen.go (the whole program is in %s)\n",
 			ci.src, missed, missedMem, missedF5, keys2(ci.gt), keys2(ci.rept), ci.dropped, ci.unjust, ci.unexpl, ci.edgeClass, sanitizerRe, validatorRe, dir)
 		if len(missed) > 0 {
 			rep.Fail("e2e-miss:"+ci.src, fmt.Sprintf("a native execution delivers unvalidated, unsanitized source data to a sink (source site, sink site)=%v and the taint analysis does not report it; the flow is not explained by a validator condition that fails must-pass", missed[0]), []byte(content), false)
